@@ -9,6 +9,6 @@ export GOFLAGS=-mod=mod GOPROXY=off GOSUMDB=off
 WT=$(mktemp -d /tmp/wt-suite-XXXXXX)
 git -C /repo worktree add -q --detach "$WT" HEAD || exit 2
 if [ "$P" != "-" ]; then git -C "$WT" apply "$(realpath "$P")" || { git -C /repo worktree remove --force "$WT"; exit 2; }; fi
-(cd "$WT" && unshare -n -- sh -c 'ip link set lo up; go test -vet=off -count=1 -timeout 25m ./... 2>&1') | grep -v '^\[gnet\]' > "$LOG"
+(cd "$WT" && SEEDTAGS="$SEEDTAGS" unshare -n -- sh -c 'ip link set lo up; go test $SEEDTAGS -vet=off -count=1 -timeout 25m ./... 2>&1') | grep -v '^\[gnet\]' > "$LOG"
 git -C /repo worktree remove --force "$WT"
 echo "$P: $(grep -c '^ok' "$LOG") packages ok; failing tests: $(grep -- '^--- FAIL' "$LOG" | sort -u | tr '\n' ' ')"
